@@ -642,8 +642,88 @@ def _engine_extra(pid):
             'engines': 'minstd_rand0 minstd_rand mt19937 mt19937_64 ranlux24_base ranlux48_base ranlux24 ranlux48 knuth_b + synthetic ranges 3, 1000, 65537', 'types': 'float double long double'}
         return out
     return f
-extra_C03 = _engine_extra('C03')
-extra_C05 = _engine_extra('C05')
+# ---- the process environment as an input (C++-only differential): C03, C05, C20 --------------------------
+def _locale_extra(pid):
+    """the same cases under the classic environment and under a hostile one: LC_ALL / LANG naming a locale that is not installed, and a
+    process-global C++ locale with a decimal comma.  The library reads what it writes with streams of the same locale, so every
+    observation that does not print numbers as text (dumps are bit patterns) must be identical, files written by the built-in callback
+    must load and resume to the same result, and texts must be identical up to the decimal point."""
+    def f(rng, tier, st, cov):
+        import tie, props, tempfile, shutil
+        out = []; exe = st['cxx_exe']
+        work = tempfile.mkdtemp(prefix='loc_', dir=tie.BUILD)
+        stats = {'cases': 0, 'environments': ['classic', 'LC_ALL=xx_XX.UTF-8 + global C++ locale with decimal comma']}
+        try:
+            base = dict(os.environ); base['VERIF_TMP'] = work
+            hostile = dict(base); hostile.update({'LC_ALL': 'xx_XX.UTF-8', 'LANG': 'xx_XX.UTF-8', 'VERIF_LOCALE': 'comma'})
+            n = 0
+            for t in ('d', 'f', 'l'):
+                fmt = FMTS[t]
+                for kind in ('plain', 'vegas', 'mc'):
+                    for rep in range(1 if tier == 'quick' else 4):
+                        n += 1
+                        iters = rng.choice([2, 3]); mode = rng.choice([1, 3]) if pid != 'C20' else None
+                        s0, cl, info = props.rand_run(rng, fmt, kind, iters=iters, calls=[3, 5, 8], cb=['builtin', mode if mode is not None else 0, fmt.rtok(0)], finite_only=True,
+                                                      value_classes=['small_int', 'frac', 'neg', 'tiny', 'big'])
+                        calls = info['calls']; k = rng.randint(1, iters - 1)
+                        final = os.path.join(work, 'chk_%d.txt' % n)
+                        def case(ops, m, keep=True):
+                            s = [(['cb', ['builtin', m, e[1][2]]] if e[0] == 'cb' else e) for e in s0 if e[0] not in ('ops', 'cbref')]
+                            s = s + ([['keepfile', final.encode()]] if keep else []) + [['ops', ops]]
+                            return dump([1, t, 'run', s, []])
+                        def run(line, env):
+                            if os.path.exists(final): os.remove(final)
+                            return run_one(exe, line, env)
+                        def strip(o):
+                            """observations without the items that print numbers as text (compared separately)"""
+                            return [x for x in (o[1] if o else []) if not (isinstance(x, list) and x and x[0] == 'text')] if o else None
+                        def norm_texts(o):
+                            return [x[1].replace(b',', b'.') if isinstance(x[1], bytes) else x[1] for x in (o[1] if o else []) if isinstance(x, list) and x and x[0] == 'text']
+                        modes = [mode] if mode is not None else [0, 1, 2, 3]
+                        ref = None
+                        for m in modes:
+                            whole = case([['run', calls], ['dump'], ['text'], ['reload'], ['dump'], ['text']], m)
+                            rc0, a0 = run(whole, base); rc1, a1 = run(whole, hostile)
+                            stats['cases'] += 1
+                            replay = {'spec': whole, 'env': {'LC_ALL': 'xx_XX.UTF-8', 'VERIF_LOCALE': 'comma'}}
+                            if rc0 != 0 or a0 is None: continue
+                            if rc1 != 0 or a1 is None or (isinstance(a1[1], list) and a1[1] and a1[1][0] in ('exception', 'crash')):
+                                out.append(viol('callback mode %d: the run that works in the classic environment does not finish when LC_ALL names a locale that is not installed and the global C++ locale '
+                                                'uses a decimal comma (exit %s): %s' % (m, rc1, dump(a1)[:200] if a1 else ''), [], replay)); continue
+                            if strip(a0) != strip(a1) or norm_texts(a0) != norm_texts(a1):
+                                what = 'the checkpoint cannot be read back' if any(isinstance(x, list) and x[:2] == ['reload', 'stream_failed'] for x in a1[1]) else 'results differ'
+                                out.append(viol('callback mode %d: under a global C++ locale with a decimal comma %s (run, text, reload) while the classic environment is fine' % (m, what), [], replay)); continue
+                            d = [x for x in a1[1] if isinstance(x, list) and x and x[0] == 'dump'][:1]
+                            if ref is None: ref = d
+                            elif d != ref:
+                                out.append(viol('callback mode %d returns a different checkpoint than mode %d under the hostile environment' % (m, modes[0]), [], replay))
+                            if m in (1, 3):
+                                # the file the callback wrote, read back by the user with a stream of the same process, then resumed
+                                part = case([['run', calls[:k]]], m)
+                                rcp, _ = run(part, hostile)
+                                if rcp == 0 and os.path.exists(final):
+                                    shutil.copy(final, final + '.keep')
+                                    resumed = case([['load', (final + '.keep').encode()], ['run', calls[k:]], ['dump']], 0, keep=False)
+                                    # (table-driven integrands are indexed by the harness' call counter: continue it)
+                                    resumed = resumed.replace('(ops ', '(idx #%x) (ops ' % sum(calls[:k]), 1)
+                                    rcr, ar = run_one(exe, resumed, hostile)
+                                    dr = [x for x in (ar[1] if ar else []) if isinstance(x, list) and x and x[0] == 'dump'][:1]
+                                    if rcr != 0 or not dr or dr != d:
+                                        bad = ar and any(isinstance(x, list) and x[:1] == ['load'] and x[1] in ('stream_failed', 'no_file') for x in ar[1])
+                                        out.append(viol('callback mode %d under a global C++ locale with a decimal comma: the file written by the built-in callback after %d of %d iterations %s' %
+                                                        (m, k, iters, 'cannot be read back by a stream of the same process' if bad else 'does not resume to the result of the uninterrupted run'),
+                                                        [], dict(replay, resumed=resumed)))
+        finally:
+            shutil.rmtree(work, ignore_errors=True)
+        cov.setdefault('extra', {})['environment'] = stats
+        return out
+    return f
+
+def extra_C03(rng, tier, st, cov):
+    return _engine_extra('C03')(rng, tier, st, cov) + _locale_extra('C03')(rng, tier, st, cov)
+def extra_C05(rng, tier, st, cov):
+    return _engine_extra('C05')(rng, tier, st, cov) + _locale_extra('C05')(rng, tier, st, cov)
+extra_C20 = _locale_extra('C20')
 def extra_C10(rng, tier, st, cov):
     # the serial library with counting engines, and the MPI drivers under real MPI (stored generator = serial one) with engines that are
     # instantiations of the standard templates themselves
